@@ -143,10 +143,36 @@ pub fn gen_windows(rng: &mut Rng, nstores: usize, ns: &[usize]) -> Vec<IndexDef>
 /// store 8 bits. Cases are chosen clearly on one side of each limit.
 fn gen_limit(seed: u64, which: u64) -> Value {
     let mut rng = Rng::keyed(seed, "C02-limit", which);
+    if which % 8 >= 5 {
+        // exact boundary of the tail-size field: 255 unsigned properties (distinct values, no default) whose names are
+        // sized so that the entry store tail is exactly 65535 / 65536 / 65537 bytes:
+        // tail = 10 + sum over properties of (1 type byte + 1 length byte + name length)
+        let target: usize = [65_535usize, 65_536, 65_537][(which % 8 - 5) as usize];
+        let nprops = 255usize;
+        let mut left = target - 10 - 2 * nprops;
+        let mut common = vec![];
+        for i in 0..nprops {
+            let remaining = nprops - i;
+            let len = (left / remaining).max(4).min(255);
+            let len = if i == nprops - 1 { left } else { len };
+            left -= len;
+            let mut name = format!("{i:03}");
+            name.push_str(&"q".repeat(len - 3));
+            common.push(PDef { name, kind: PKind::UInt, col: Col::Seq });
+        }
+        let st = StoreDef { n: 3, common, variants: vec![], sort: None, unique_keys: false };
+        let case = DirCase { seed: rng.next(), vstores: vec![], stores: vec![st], indexes: vec![IndexDef { name: "index0".into(), store: 0, offset: 0, count: 3 }] };
+        let mut v = case.to_json();
+        v["via"] = json!("mem");
+        v["expect"] = json!(if target > 65_535 { "unrepresentable" } else { "representable" });
+        v["exact_tail"] = json!(target);
+        v["limit"] = json!(format!("entry store tail of exactly {target} bytes"));
+        return v;
+    }
     let (case, expect, why) = match which % 4 {
         0 | 1 => {
             // indexed value store with n distinct 9-byte values: tail = 10 + w + w*(n-1) bytes, w = 3 for these sizes
-            let n = if which % 4 == 0 { 40_000 } else { 20_000 };
+            let n = if which % 4 == 0 { 24_000 } else { 18_000 };
             let st = StoreDef {
                 n,
                 common: vec![PDef { name: "v".into(), kind: PKind::Array { prefix: 0, store: 0 }, col: Col::Seq }, PDef { name: "id".into(), kind: PKind::UInt, col: Col::Seq }],
@@ -182,8 +208,9 @@ fn gen_limit(seed: u64, which: u64) -> Value {
 }
 
 pub fn gen(seed: u64, tier: Tier, k: u64) -> Value {
-    if (tier == Tier::Quick && (4..8).contains(&k)) || (tier == Tier::Thorough && k % 150 < 4) {
-        return gen_limit(seed, k % 150 % 4 + if tier == Tier::Quick { 0 } else { 4 * (k / 150) });
+    if (tier == Tier::Quick && (4..12).contains(&k)) || (tier == Tier::Thorough && k % 150 < 8) {
+        // which % 8: 0..3 = clearly over / under the limits, 4 = (same as 0), 5..7 = exact boundary 65535 / 65536 / 65537
+        return gen_limit(seed, (k % 150) % 8 + if tier == Tier::Quick { 0 } else { 8 * (k / 150) });
     }
     let mut rng = Rng::keyed(seed, "C02", k);
     let nv = rng.range(0, 3) as usize;
@@ -490,7 +517,12 @@ pub fn run_dir_case(desc: &Value, ctx: &Ctx, opts: &VerifyOpts) -> CaseOut {
     });
     // classification by the model (the generator's "expect" tag of the limit cases is only a label)
     let models: Vec<Vec<EntryModel>> = (0..case.stores.len()).map(|si| expand(&case, si)).collect();
-    let (repr, repr_why) = representable(&case, &models);
+    let (mut repr, mut repr_why) = representable(&case, &models);
+    if let Some(t) = desc.get("exact_tail").and_then(|x| x.as_u64()) {
+        // for these hand-sized schemas the tail length is known exactly
+        repr = if t > 65_535 { Repr::No } else { Repr::Yes };
+        repr_why = format!("entry store tail of exactly {t} bytes");
+    }
     let unrepresentable = repr == Repr::No;
     if desc.get("expect").is_some() {
         out.obs.inc(&format!("limit_cases.{}", jstr(desc, "expect")));
